@@ -970,6 +970,11 @@ func (e *c06Env) step(c *Ctx, regs []*c06Reg, prog string) {
 	case "setscale":
 		copy(want, A.want)
 		eb = 2*A.eb + ma*math.Exp2(-45) + noise
+		if r, isInt := c06Ratio(op.dy, am.scale); !isInt && r*e.c06ConstScale(am.level) >= 2 {
+			// the constant round(ratio*q) carries a relative quantisation error of at most 1/(2*ratio*q): this is
+			// precision implied by the scale the constant is encoded at, not a defect (total underflow is, see diag)
+			eb += ma * 0.5 / (r * e.c06ConstScale(am.level))
+		}
 	default: // rescale, rescaleto, scaleup, droplevel, relin: value unchanged
 		for i := range want {
 			want[i] = c06At(A.want, i)
@@ -1041,6 +1046,16 @@ func c06Ratio(a, b rlwe.Scale) (ratio float64, isInt bool) {
 	return q.Float64(), q.Value.IsInt()
 }
 
+// c06ConstScale: the factor by which Evaluator.Mul scales a non-integer constant at this level
+// (the product of LevelsConsumedPerRescaling() primes from the top of the level).
+func (e *c06Env) c06ConstScale(level int) float64 {
+	f := 1.0
+	for i := 0; i < e.params.LevelsConsumedPerRescaling() && level-i >= 0; i++ {
+		f *= float64(e.params.Q()[level-i])
+	}
+	return f
+}
+
 // diag names the known defect class a failing precision probe belongs to ("" = none known).
 func (e *c06Env) diag(op *c06Op, am, bm, om c06M) string {
 	switch op.kind {
@@ -1080,8 +1095,17 @@ func (e *c06Env) diag(op *c06Op, am, bm, om c06M) string {
 			// RescaleTo works on the recorded scale old*q_l, not on the true one target*q_l:
 			// for old/q_{l-1} >= target/2 it divides by more primes than the constant was scaled by
 			lc := e.params.LevelsConsumedPerRescaling()
+			if am.level < lc {
+				// Mul scaled the constant by lc primes (it only needs level >= lc-1); RescaleTo stops at level 0
+				// and can divide by at most `level` of them: the content keeps a factor q while the scale is overwritten
+				return "setscale-level-below-primes-consumed"
+			}
 			if am.level-lc >= 0 && r*float64(e.params.Q()[am.level-lc]) <= 2.0000001 {
 				return "setscale-ratio-below-2-over-q"
+			}
+			// Mul encodes the non-integer constant as round(ratio * q_l[* q_{l-1}...]): below 2 it is 0 or 1
+			if r*e.c06ConstScale(am.level) < 2 {
+				return "setscale-constant-underflow"
 			}
 		}
 	}
